@@ -692,6 +692,9 @@ struct PeerConnectionInner {
     rtp_media_ice_transports: Mutex<HashMap<u64, IceTransport>>,
     rtp_media_transports: Mutex<HashMap<u64, Arc<RtpTransport>>>,
     sctp_transport: Mutex<Option<Arc<SctpTransport>>>,
+    /// Becomes `true` once a remote description with an application section has been
+    /// stored; a DTLS transport that was started without one then starts SCTP.
+    sctp_wanted: watch::Sender<bool>,
     data_channels: Arc<Mutex<Vec<std::sync::Weak<crate::transports::sctp::DataChannel>>>>,
     event_tx: mpsc::UnboundedSender<PeerConnectionEvent>,
     event_rx: tokio::sync::Mutex<mpsc::UnboundedReceiver<PeerConnectionEvent>>,
@@ -815,6 +818,7 @@ impl PeerConnection {
             rtp_media_ice_transports: Mutex::new(HashMap::new()),
             rtp_media_transports: Mutex::new(HashMap::new()),
             sctp_transport: Mutex::new(None),
+            sctp_wanted: watch::channel(false).0,
             data_channels: Arc::new(Mutex::new(Vec::new())),
             event_tx,
             event_rx: tokio::sync::Mutex::new(event_rx),
@@ -2018,6 +2022,14 @@ impl PeerConnection {
             *remote = Some(desc.clone());
         }
 
+        if desc
+            .media_sections
+            .iter()
+            .any(|m| m.kind == MediaKind::Application)
+        {
+            let _ = self.inner.sctp_wanted.send_replace(true);
+        }
+
         // Start ICE only now. The transports are started from another task as soon as a
         // pair is nominated (over loopback or ICE-TCP that takes well under a millisecond),
         // and `start_dtls` decides from the stored remote description whether an SCTP
@@ -2306,8 +2318,33 @@ impl PeerConnection {
             *self.inner.sctp_transport.lock() = Some(sctp);
             sctp_runner = Box::pin(runner);
         } else {
-            drop(incoming_data_rx);
-            sctp_runner = Box::pin(std::future::pending());
+            // No application section so far. A later offer/answer exchange may still add
+            // one (create_data_channel() on an established connection): keep the DTLS
+            // application-data receiver and start the association when that happens.
+            let mut wanted_rx = self.inner.sctp_wanted.subscribe();
+            let inner_weak = Arc::downgrade(&self.inner);
+            let dtls = dtls.clone();
+            sctp_runner = Box::pin(async move {
+                if wanted_rx.wait_for(|wanted| *wanted).await.is_err() {
+                    return std::future::pending().await;
+                }
+                let Some(inner) = inner_weak.upgrade() else {
+                    return std::future::pending().await;
+                };
+                let (sctp, runner) = SctpTransport::new(
+                    dtls,
+                    incoming_data_rx,
+                    inner.data_channels.clone(),
+                    sctp_port,
+                    sctp_port,
+                    Some(dc_tx),
+                    is_client,
+                    &inner.config,
+                );
+                *inner.sctp_transport.lock() = Some(sctp);
+                drop(inner);
+                runner.await
+            });
         }
 
         // Close any previous DTLS transport so its background handshake/packet
@@ -2335,11 +2372,7 @@ impl PeerConnection {
                 }
             }
         };
-        let mut dc_listener: Pin<Box<dyn Future<Output = ()> + Send>> = if sctp_needed {
-            Box::pin(dc_listener)
-        } else {
-            Box::pin(std::future::pending())
-        };
+        let mut dc_listener: Pin<Box<dyn Future<Output = ()> + Send>> = Box::pin(dc_listener);
 
         let mut state_rx = dtls_clone.subscribe_state();
         loop {
